@@ -94,6 +94,25 @@ func (ex *Exec) VerifyFunction(fn *ssa.Function, ct *Contract) {
 	}
 	ex.entry = fn
 	ex.entryCt = ct
+	// every loop a contract talks about must exist (after ordinal translation): an invariant that is silently attached
+	// to no loop would neither be checked nor assumed
+	if ct != nil {
+		have := map[int]bool{}
+		for _, lp := range ex.loopInfo(fn).Loops {
+			have[baselineLoopOrdinal(fn, lp.Ordinal)] = true
+		}
+		miss := func(k int, line string) {
+			if !have[k] {
+				ex.specErrorOnce(fmt.Sprintf("%s: %s has no loop#%d (loops found: %d)", line, ex.fnName(fn), k, len(have)))
+			}
+		}
+		for _, c := range ct.Invs {
+			miss(c.Loop, c.Line)
+		}
+		for _, c := range ct.Covers {
+			miss(c.Loop, c.Line)
+		}
+	}
 	// aliasing partitions of same-typed pointer parameters: all distinct, plus each aliased pair
 	type pair struct{ i, j int }
 	pairs := []pair{{-1, -1}}
@@ -553,10 +572,12 @@ func (ex *Exec) loopNames(st *State, fr *Frame, lp *Loop) map[string]Value {
 			}
 		}
 	}
-	for _, ins := range lp.Header.Instrs {
-		if phi, ok := ins.(*ssa.Phi); ok && phi.Comment != "" {
-			if v, ok := fr.Locals[phi]; ok {
-				names[phi.Comment] = v
+	if lp != nil {
+		for _, ins := range lp.Header.Instrs {
+			if phi, ok := ins.(*ssa.Phi); ok && phi.Comment != "" {
+				if v, ok := fr.Locals[phi]; ok {
+					names[phi.Comment] = v
+				}
 			}
 		}
 	}
@@ -585,7 +606,9 @@ func (ex *Exec) loopNames(st *State, fr *Frame, lp *Loop) map[string]Value {
 			}
 		}
 		alias(base.Allocs, curAllocs)
-		alias(base.Phis[fmt.Sprintf("%d", baselineLoopOrdinal(fr.Fn, lp.Ordinal))], curPhis[fmt.Sprintf("%d", lp.Ordinal)])
+		if lp != nil {
+			alias(base.Phis[fmt.Sprintf("%d", baselineLoopOrdinal(fr.Fn, lp.Ordinal))], curPhis[fmt.Sprintf("%d", lp.Ordinal)])
+		}
 	}
 	return ex.freeVarNames(st, fr, names)
 }
@@ -970,6 +993,9 @@ func nameMatches(name, pat string) bool {
 	if strings.HasPrefix(name, "range.next#") && pat == "range.next" {
 		return true
 	}
+	if strings.HasPrefix(name, "map.next#") && pat == "map.next" {
+		return true
+	}
 	// receiver written without its package qualifier: (*AccountingBook).m matches (*accountant.AccountingBook).m
 	if strings.HasPrefix(name, "(") {
 		if i := strings.Index(name, ")"); i > 0 {
@@ -1018,6 +1044,9 @@ func (ex *Exec) onEvent(st *State, ev *Event) {
 		if tc.When != nil {
 			when = env.evalBool(tc.When)
 			if when == nil {
+				if len(errs) > 0 && strings.HasPrefix(errs[0], "other-shape:") {
+					continue // the event has another shape than the one the clause talks about
+				}
 				ex.Specs.Errors = append(ex.Specs.Errors, fmt.Sprintf("%s: when: %s", tc.Line, strings.Join(errs, "; ")))
 				continue
 			}
@@ -1143,6 +1172,9 @@ func (ex *Exec) checkRespondFrom(st *State, fr *Frame, ct *Contract, names map[s
 			if tc.When != nil {
 				when = env.evalBool(tc.When)
 				if when == nil {
+					if len(errs) > 0 && strings.HasPrefix(errs[0], "other-shape:") {
+						continue // the event has another shape than the one the clause talks about
+					}
 					ex.Specs.Errors = append(ex.Specs.Errors, fmt.Sprintf("%s: when: %s", tc.Line, strings.Join(errs, "; ")))
 					continue
 				}
